@@ -12,10 +12,18 @@ using mc::Ctx;
 
 namespace {
 
+bool gFromSavedGame = false;   // read the same map portion through the saved-game reader instead of the map reader
+
 Map makeMap(uint32_t lg, uint32_t h, int fill)
 {
 	ref::RMap r; r.lgWidth = lg; r.height = h; r.fillTiles(fill);
 	for (int i = 0; i < 2048; ++i) r.mappings.push_back({ uint16_t(i * 7 + 1), uint16_t(0xFFFF - i * 3), uint16_t(i), uint16_t(i ^ 0x555) });
+	if (gFromSavedGame) {
+		auto b = ref::encodeSavedGame(r, ref::RSavedUnits());
+		std::unique_ptr<uint8_t[]> p(new uint8_t[b.size()]); std::memcpy(p.get(), b.data(), b.size());
+		Stream::MemoryReader rd(p.get(), b.size());
+		return Map::ReadSavedGame(rd);
+	}
 	return mapc::readMap(ref::encodeMap(r));
 }
 
@@ -63,6 +71,46 @@ void addressing(Ctx& ctx, uint32_t lg, uint32_t hFrom, uint32_t hTo)
 	}
 	ctx.trace();
 	ctx.outcome(uint64_t(lg) * 1000 + hFrom);
+}
+
+// several maps of different shapes alive at once, accessed in turn coordinate by coordinate (row-major, then column-major):
+// what one map's accessor computed must not leak into the next map's (cached block starts, remembered heights)
+void mapsInTurn(Ctx& ctx)
+{
+	std::vector<std::pair<uint32_t, uint32_t>> shapes = { { 6, 4 }, { 6, 8 }, { 7, 3 }, { 5, 16 }, { 10, 2 }, { 6, 4 }, { 7, 6 } };
+	std::vector<Map> maps;
+	for (auto& sh : shapes) maps.push_back(makeMap(sh.first, sh.second, 0));
+	uint64_t n = 0;
+	auto probe = [&](std::size_t k, uint64_t x, uint64_t y) -> bool {
+		uint64_t W = uint64_t(1) << shapes[k].first, H = shapes[k].second;
+		if (x >= W || y >= H) return true;
+		std::string key = "maps in turn: map " + std::to_string(W) + "x" + std::to_string(H) + " (" + std::to_string(x) + "," + std::to_string(y) + ")";
+		uint64_t expect = ref::tileIndex(x, y, H);
+		std::size_t got = std::size_t(expect);
+		privateIndex(maps[k], std::size_t(x), std::size_t(y), got);
+		++n;
+		if (got != expect) { ctx.violation("C16/tile-index-formula", key, "index " + std::to_string(got) + " expected " + std::to_string(expect) + " (other maps were accessed in between)"); return false; }
+		uint32_t w = word(maps[k], std::size_t(expect));
+		if (maps[k].GetTileMappingIndex(std::size_t(x), std::size_t(y)) != ((w >> 5) & 0x7FF) || static_cast<int>(maps[k].GetCellType(std::size_t(x), std::size_t(y))) != int(w & 0x1F)) { ctx.violation("C16/getter/addresses-another-tile", key, "other maps were accessed in between"); return false; }
+		return true;
+	};
+	for (uint64_t y = 0; y < 16; ++y) for (uint64_t x = 0; x < 1024; ++x) for (std::size_t k = 0; k < maps.size(); ++k) if (!probe(k, x, y)) return;
+	for (uint64_t x = 0; x < 1024; ++x) for (uint64_t y = 0; y < 16; ++y) for (std::size_t k = maps.size(); k-- > 0;) if (!probe(k, x, y)) return;
+	// setters in turn at the same coordinate: exactly the addressed word of the addressed map changes
+	for (uint64_t x : { uint64_t(33), uint64_t(40), uint64_t(63), uint64_t(35) }) for (uint64_t y : { uint64_t(1), uint64_t(2) }) for (std::size_t k = 0; k < maps.size(); ++k) {
+		uint64_t W = uint64_t(1) << shapes[k].first, H = shapes[k].second;
+		if (x >= W || y >= H) continue;
+		std::vector<uint32_t> before(maps[k].tiles.size()); std::memcpy(before.data(), maps[k].tiles.data(), before.size() * 4);
+		maps[k].SetCellType(CellType::Rubble, std::size_t(x), std::size_t(y));
+		std::size_t changed = 0, where = 0;
+		for (std::size_t i = 0; i < before.size(); ++i) if (word(maps[k], i) != before[i]) { ++changed; where = i; }
+		uint64_t expect = ref::tileIndex(x, y, H);
+		bool alreadyRubble = (before[std::size_t(expect)] & 0x1F) == uint32_t(CellType::Rubble);
+		if ((changed != (alreadyRubble ? 0u : 1u)) || (changed == 1 && where != expect)) { ctx.violation("C16/setter/changed-another-tile", "maps in turn: map " + std::to_string(W) + "x" + std::to_string(H) + " SetCellType at (" + std::to_string(x) + "," + std::to_string(y) + ")", "changed word " + std::to_string(where) + " expected " + std::to_string(expect)); return; }
+		++n;
+	}
+	ctx.count("addressing/maps-in-turn", n);
+	ctx.state(maps.size()); ctx.transition(n); ctx.trace();
 }
 
 // (3): every setter on every coordinate, followed by a full-array diff
@@ -164,6 +212,9 @@ void build(Ctx& ctx)
 	for (auto& f : full) gCases.push_back({ 1, f.first, f.second, 1 });
 	for (auto& f : std::vector<std::pair<uint32_t, uint32_t>>{ { 6, 2 }, { 6, 5 }, { 7, 3 }, { 8, 2 }, { 10, 1 }, { 9, 7 } }) gCases.push_back({ 1, f.first, f.second, 0 });
 	gCases.push_back({ 2, 0, 0, 0 });
+	// the same map portion read through the saved-game reader: widths 32, 64, 1024 x heights that are and are not powers of two
+	for (uint32_t lg : { 5u, 6u, 10u }) gCases.push_back({ 3, lg, 0, 0 });
+	gCases.push_back({ 4, 0, 0, 0 });
 }
 
 void runCase(std::size_t i, Ctx& ctx)
@@ -171,6 +222,8 @@ void runCase(std::size_t i, Ctx& ctx)
 	const CaseDef& c = gCases[i];
 	if (c.kind == 0) { addressing(ctx, c.lg, c.a, c.b); if (c.lg == 7 && c.a == 33) ctx.sample("maps 128x33 .. 128x64: every coordinate -> index formula, bijection bitmap, getters against the tile word"); }
 	else if (c.kind == 1) setters(ctx, c.lg, c.a, c.b != 0);
+	else if (c.kind == 3) { gFromSavedGame = true; for (uint32_t h : { 1u, 2u, 3u, 5u, 6u, 7u, 12u, 100u, 255u, 256u }) { addressing(ctx, c.lg, h, h); ctx.count("addressing/maps-from-saved-games"); } gFromSavedGame = false; }
+	else if (c.kind == 4) mapsInTurn(ctx);
 	else values(ctx);
 }
 
